@@ -1,6 +1,9 @@
 ----------------------------------------- MODULE HexSymmetry_mc -----------------------------------------
 EXTENDS HexSymmetry
 Bound == TLCGet("level") <= MaxLevel
+\* states on the last level are checked but not expanded (their successors would be thrown away by Bound anyway)
+RotateB(k) == TLCGet("level") < MaxLevel /\ Rotate(k)
+NextB == \E k \in KSet : RotateB(k)
 View  == vars                                   \* emission configs: one node per (o, c); act hidden
 \* one line per explored Rotate edge; the expected cell and coordinates are the GEOMETRIC images
 Emit  == PrintT(ToJson([lvl |-> TLCGet("level"), from |-> Vars, act |-> [n |-> act'.n, k |-> act'.k],
